@@ -71,4 +71,9 @@ Laws == RdLaws(cs)
 Emit == OUT = "" \/
         Serialize(ToJson([in |-> cs, exp |-> RenderStack(cs)]) \o "\n", OUT,
                   [format |-> "TXT", charset |-> "UTF-8", openOptions |-> <<"WRITE", "CREATE", "APPEND">>]).exitValue = 0
+
+\* the same families, judged on what each node reports about its size (fn "measure")
+EmitM == OUT = "" \/
+         Serialize(ToJson([in |-> cs, exp |-> Measure(cs)]) \o "\n", OUT,
+                   [format |-> "TXT", charset |-> "UTF-8", openOptions |-> <<"WRITE", "CREATE", "APPEND">>]).exitValue = 0
 =============================================================================
